@@ -1,9 +1,15 @@
 import Goyang.Model.Stmt
+import Goyang.Model.StrOrd
 /-
 Module registry and linkage (pkg/yang/modules.go: add, FindModule; yang.go: Module.Current,
 FullName, GetPrefix; node.go: FindModuleByPrefix, module()).  Pure: a module "pointer" is the
 load sequence number `seq`; the two Go maps are association lists (the first binding of a key is
 the current one: `bind` replaces).
+
+`Registry.add`, `findModule`, `Mod.current`, `Mod.fullName` are the subject of property C13
+(Goyang/Props/C13.lean); they mirror the code after the repair of D16 (a module without a
+revision is remembered in `Modules.unrevisioned` and holds its bare name only while no revision
+of the same name is present).  String comparison is Go's byte-wise `<` (`strLt`).
 -/
 namespace Goyang.Model
 
@@ -20,9 +26,10 @@ def isSub (m : Mod) : Bool := (m.stmt.one? "belongs-to").isSome
 
 def name (m : Mod) : String := m.stmt.arg
 
-/-- `Module.Current`: the greatest revision argument (byte-wise string order), "" if none. -/
+/-- `Module.Current`: the greatest revision argument (byte-wise string order), "" if none.
+Go: `for _, r := range s.Revision { if r.Name > rev { rev = r.Name } }`. -/
 def current (m : Mod) : String :=
-  (m.stmt.all "revision").foldl (fun rev r => if r.arg > rev then r.arg else rev) ""
+  (m.stmt.all "revision").foldl (fun rev r => if strLt rev r.arg then r.arg else rev) ""
 
 /-- `Module.FullName`. -/
 def fullName (m : Mod) : String :=
@@ -57,6 +64,11 @@ structure Registry where
   mods : List Mod := []            -- everything added so far, in load order (seq = index)
   modules : KeyMap := []           -- ms.Modules
   subModules : KeyMap := []        -- ms.SubModules
+  /-- `ms.unrevisioned`, the part with keys `"module " ++ name` -/
+  unrevModules : KeyMap := []
+  /-- `ms.unrevisioned`, the part with keys `"submodule " ++ name` (the two kinds cannot collide:
+  the Go keys start with different letters and the kind contains no blank) -/
+  unrevSubs : KeyMap := []
   deriving Repr, Inhabited
 
 namespace Registry
@@ -69,22 +81,68 @@ def getSub (r : Registry) (key : String) : Option Mod := (r.subModules.get? key)
 inductive AddErr | duplicate (kind fullName : String)
   deriving Repr
 
-/-- `Modules.add` for a statement already built as a module/submodule node. -/
+/-- The table for a kind: `ms.SubModules` or `ms.Modules` (Go: `m` in `add` and `FindModule`). -/
+def kmOf (r : Registry) (sub : Bool) : KeyMap := if sub then r.subModules else r.modules
+
+/-- The part of `ms.unrevisioned` for a kind. -/
+def umOf (r : Registry) (sub : Bool) : KeyMap := if sub then r.unrevSubs else r.unrevModules
+
+def withKm (r : Registry) (sub : Bool) (km : KeyMap) : Registry :=
+  if sub then { r with subModules := km } else { r with modules := km }
+
+def withUm (r : Registry) (sub : Bool) (um : KeyMap) : Registry :=
+  if sub then { r with unrevSubs := um } else { r with unrevModules := um }
+
+/-- `Modules.add` for a statement already built as a module/submodule node (the `default:` arm of
+the kind switch cannot be reached from `Parse`: the AST builder only returns `*Module` there).
+On an error the registry is unchanged (Go has by then only set `mod.Modules`). -/
 def add (r : Registry) (s : Stmt) : Except AddErr Registry :=
   let m : Mod := { seq := r.mods.length, stmt := s }
-  let km := if m.isSub then r.subModules else r.modules
+  let sub := m.isSub
+  let kind := if sub then "submodule" else "module"
+  let km := r.kmOf sub
+  let name := m.name
   let full := m.fullName
-  match km.get? full with
-  | some _ => .error (.duplicate (if m.isSub then "submodule" else "module") full)
-  | none =>
-    let km := km.bind full m.seq
-    let km :=
-      if full == m.name then km else
-      match (km.get? m.name).bind r.byId with
-      | none => km.bind m.name m.seq
-      | some o => if o.fullName < full then km.bind m.name m.seq else km
-    let r := { r with mods := r.mods ++ [m] }
-    .ok (if m.isSub then { r with subModules := km } else { r with modules := km })
+  -- the new module can be looked up by its id from here on (Go: `mod` is a live pointer)
+  let r1 : Registry := { r with mods := r.mods ++ [m] }
+  if full == name then
+    -- no revision: ranks below every revision of the same name
+    match (r.umOf sub).get? name with
+    | some _ => .error (.duplicate kind full)
+    | none =>
+      let um := (r.umOf sub).bind name m.seq
+      let km := match km.get? name with
+        | some _ => km
+        | none => km.bind name m.seq
+      .ok ((r1.withUm sub um).withKm sub km)
+  else
+    match km.get? full with
+    | some _ => .error (.duplicate kind full)
+    | none =>
+      let km := km.bind full m.seq
+      -- `if o := m[name]; o == nil || o.FullName() < fullName { m[name] = mod }`
+      let km := match km.get? name with
+        | none => km.bind name m.seq
+        | some oid =>
+          match r1.byId oid with
+          | none => km     -- not reachable: every id in a table is the seq of a loaded module
+          | some o => if strLt o.fullName full then km.bind name m.seq else km
+      .ok (r1.withKm sub km)
+
+/-- Outcome of one load as `Modules.Parse` reports it. -/
+abbrev LoadOutcome := Option AddErr
+
+/-- Load statements one after the other into `r` (each is one `ms.add`); a rejected one leaves the
+registry as it was.  Returns the final registry and, per load, the error if any. -/
+def loadFrom (r : Registry) : List Stmt → Registry × List LoadOutcome
+  | [] => (r, [])
+  | s :: rest =>
+    match r.add s with
+    | .ok r' => let (rf, out) := loadFrom r' rest; (rf, none :: out)
+    | .error e => let (rf, out) := loadFrom r rest; (rf, some e :: out)
+
+/-- Load into a fresh `NewModules()`. -/
+def loadAll (ss : List Stmt) : Registry × List LoadOutcome := loadFrom {} ss
 
 /-- `Modules.FindModule` for an import (`isInclude = false`) or include statement, in-memory part
 only: reading a missing module from the search path is outside the model (the harness runs in
@@ -95,6 +153,8 @@ def findModule (r : Registry) (isInclude : Bool) (i : Stmt) : Option Mod :=
     | some d => name ++ "@" ++ d
     | none => name
   let get := if isInclude then r.getSub else r.getModule
+  -- `if n := m[rev]; n != nil { return n }; if n := m[name]; n != nil { return n }`; the reads from
+  -- the search path that follow a miss are outside this function
   match get rev with
   | some m => some m
   | none => get name
